@@ -13,6 +13,7 @@
 //   9 submdspan_extents(extents, full_extent / index ...) - order and values of the kept extents
 //  10 submdspan_extents with run-time index-pair slices  [first,last)
 //  11 submdspan_extents with index-pair slices of integral constants (static result extent)
+//  12 mdspan copy/move assignment and swap (std::mdspan has them; a user-declared move constructor deletes the implicit ones)
 #include "vf.hpp"
 #include "vf_contract.hpp"
 
@@ -482,6 +483,46 @@ void probe(Ctx& c, std::size_t k)
         expect_ext(c, "(index,pair<ic,ic>,full)", etl::submdspan_extents(e, 0, P13{}, etl::full_extent), {2, b}, {2, dyn}, 4);
     }
     #endif
+}
+#elif VF_PROBE == 12
+constexpr char const* PNAME = "mdspan_assign";
+constexpr std::uint64_t NCASE = 25;
+void probe(Ctx& c, std::size_t k)
+{
+    using E  = etl::extents<Idx, dyn, dyn>;
+    using MD = etl::mdspan<Cell, E, etl::layout_left>;
+    static_assert(std::is_copy_assignable_v<MD>, "mdspan must be copy assignable");
+    static_assert(std::is_move_assignable_v<MD>, "mdspan must be move assignable");
+    c.p     = pinfo<E>();
+    c.shape = shape_of(c.p, k);
+    c.sit   = situation(c.p, c.shape);
+    c.desc  = show(c.shape, 2);
+    Arr const sh2   = other_shape(c.p, c.shape);
+    Model const m1  = model_left(c.shape, 2), m2 = model_left(sh2, 2);
+    vf::Buf<Cell> b1((std::size_t)m1.span()), b2((std::size_t)m2.span());
+    MD x(b1.data(), make_extents<E>(c.shape));
+    MD y(b2.data(), make_extents<E>(sh2));
+    auto verify = [&](char const* op, MD const& md, Cell* base, Model const& mod, std::uint64_t salt) {
+        vf::cover(op, vf::mix(k, salt), true);
+        vf::eq_bool("data_handle()", md.data_handle() == base, true);
+        std::vector<LL> got;
+        Arr i{};
+        if (!mod.empty()) {
+            do { got.push_back((LL)(&md(static_cast<Idx>(i[0]), static_cast<Idx>(i[1])) - base)); } while (next(i, mod.e, 2));
+        }
+        for (std::size_t r = 0; r < 2; ++r) { vf::eq_int("extent(r)", (LL)md.extent(r), mod.e[r]); }
+        judge_offsets("operator()(index_type...)", got, mod, vf::mix(k, salt), "element-address");
+    };
+    crumb(c, "mdspan", "operator=(mdspan const&)");
+    x = y;
+    verify("operator=(mdspan const&)", x, b2.data(), m2, 1);
+    crumb(c, "mdspan", "operator=(mdspan&&)");
+    x = MD(b1.data(), make_extents<E>(c.shape));
+    verify("operator=(mdspan&&)", x, b1.data(), m1, 2);
+    crumb(c, "mdspan", "swap(mdspan&,mdspan&)");
+    swap(x, y);
+    verify("swap(mdspan&,mdspan&)", x, b2.data(), m2, 3);
+    verify("swap(mdspan&,mdspan&)", y, b1.data(), m1, 4);
 }
 #else
     #error "unknown VF_PROBE"
